@@ -10,7 +10,7 @@ import zipfile
 from vlib import env
 from vlib.report import pmap
 import tables
-from checks.common import make_replay, t_oblig, bounded_part, want, contract_sources
+from checks.common import anchored, make_replay, t_oblig, bounded_part, want, contract_sources
 from pysym.harness import run_cases
 
 LEVEL = 'proof'
@@ -52,13 +52,15 @@ def _f16_chunk(rng):
 def main(run):
     env.setup(pyx=True)
     from contracts import pack as cp
-    for k, t in cp.region_texts().items():
-        run.under_contract('chython/containers/_pack_v2.pyx' if k.endswith('_w') else 'chython/containers/_unpack_v0v2.pyx', k, t)
+    with anchored(run, 'C10/regions'):
+        for k, t in cp.region_texts().items():
+            run.under_contract('chython/containers/_pack_v2.pyx' if k.endswith('_w') else 'chython/containers/_unpack_v0v2.pyx', k, t)
     contract_sources(run, [('chython/containers/reaction.py', q) for q in ('ReactionContainer.pack', 'ReactionContainer.unpack', 'ReactionContainer.pack_len')] +
                      [('chython/containers/molecule.py', q) for q in ('MoleculeContainer.pack', 'MoleculeContainer.unpack', 'MoleculeContainer.pack_len')])
     run.under_contract('chython/containers/_pack_v2.pyx', 'pack, double_to_float16', env.read('chython/containers/_pack_v2.pyx'))
     run.under_contract('chython/containers/_unpack_v0v2.pyx', 'unpack, double_from_bytes', env.read('chython/containers/_unpack_v0v2.pyx'))
     if want(run, 'T'):
+      with anchored(run, 'C10/T'):
         # L3 float16: decode(h) == IEEE half value and encode(decode(h)) == h for every finite half pattern (complete, by execution)
         chunks = [(i, min(i + 4096, 65536)) for i in range(0, 65536, 4096)]
         tot, bad = 0, []
@@ -94,6 +96,7 @@ def main(run):
         src = tables.source_of('chython/containers/molecule.py', 'MoleculeContainer.pack')
         t_oblig(run, 'limits:pack-checks-atom-number<=4095-and-neighbours<=15', 'max(bonds) > 4095' in src and 'len(x) > 15' in src and 'not bonds' in src)
     if want(run, 'P'):
+      with anchored(run, 'C10/P'):
         run_cases(run, 'contracts.pack', engine='X/P')
     bounded_part(run, 'C10')
     run.assume('Cython lowers the constructs as described in DESIGN §1.4; C integer conversions wrap at stores; intermediate values stay inside C int '
